@@ -354,7 +354,7 @@ def run_layout(pid, tier):
     scan(pl)
     # ---- the same properties on the text-level family: every single-token mutation of three base texts that is still a module
     #      of the language (Parse.tla) with an image in Base.tla (Interp.tla), fed to pyxis as the mutated TEXT
-    pl_pipe = Pipeline(tier, module="MC_Pipe", cfgs={"quick": ["MC_Pipe_q1.cfg"], "thorough": ["MC_Pipe_q1.cfg"]}, name="layout-pipe")
+    pl_pipe = Pipeline(tier, module="MC_Pipe", cfgs={"quick": ["MC_Pipe_q1.cfg"], "thorough": ["MC_Pipe_t1.cfg"]}, name="layout-pipe")
     if need_compile:
         pl_pipe.compile()
     bp = pl_pipe.base_coverage()
